@@ -182,8 +182,8 @@ def or_paths(b):
         if pl['l'] == t_local:
             fs = [e for e in pl['p'] if isinstance(e, dict) and 'f' in e]
             return fs[0]['f'] if fs else None
-        if pl['l'] in (1, 2) and not any(isinstance(e, dict) and 'f' in e for e in pl['p'][:1]):
-            return pl['l'] - 1
+        if pl['l'] in (1, 2) and pl['l'] != t_local:
+            return pl['l'] - 1      # matched directly (`match self { .. => match other { .. } }`)
         return None
 
     def resolve_side(op, depth=0):
@@ -200,7 +200,7 @@ def or_paths(b):
             if rv['k'] in ('ref', 'discr'):
                 return resolve_side({'k': 'copy', 'place': rv['place']}, depth + 1)
         return None
-    return t_local, resolve_side
+    return t_local, resolve_side, side_of_place
 
 
 def payload_place(b, op, hops=12):
@@ -228,13 +228,15 @@ def r2(R2, cfg, F):
     if sorted(vidx) != ['Conversion', 'Io', 'NoDefaultValue']:
         R2.unrecognised(cfg, b.path, 'ErrorKind variants %s' % sorted(vidx), b.loc())
         return
-    t_local, resolve_side = or_paths(b)
+    t_local, resolve_side, side_of_place = or_paths(b)
     paths = enumerate_paths(b, max_paths=4096)
-    if paths is None or t_local is None:
+    if paths is None:
         R2.unrecognised(cfg, b.path, 'paths / (self, other) tuple', b.loc())
         return
     # promoted NotFound
-    pb = [x for x in F.bodies.values() if x.owner == b.path and x.promoted is not None]
+    # (the constant may belong to a helper that was written in place: owners = this function and what was inlined into it)
+    owners = {b.path} | set(b.raw.get('inlined') or [])
+    pb = [x for x in F.bodies.values() if x.owner in owners and x.promoted is not None]
     notfound_ok = any(any(s['rv']['k'] == 'aggregate' and s['rv'].get('variant_name') == 'NotFound' for _, _, s in x.assigns()) for x in pb)
 
     def classify_switch(bb):
@@ -244,11 +246,19 @@ def r2(R2, cfg, F):
         if l is not None and b._is_drop_flag(l):
             return ('flag',)
         defs = [x for x in b.defs_of(l)] if l is not None else []
+        if len(defs) > 1:   # copies made by jump threading: the one in this block is read here
+            defs = [x for x in defs if x[1] == bb] or defs
+        for _ in range(6):  # through plain moves (a helper returning the flag, written in place)
+            if len(defs) == 1 and defs[0][0] == 'stmt' and defs[0][3]['rv']['k'] == 'use' and op_bare_local(defs[0][3]['rv']['op']) is not None:
+                defs = [x for x in b.defs_of(op_bare_local(defs[0][3]['rv']['op']))]
+            else:
+                break
         if len(defs) == 1 and defs[0][0] == 'stmt' and defs[0][3]['rv']['k'] == 'discr':
             pl = defs[0][3]['rv']['place']
             side = None
-            if pl['l'] == t_local and len([e for e in pl['p'] if isinstance(e, dict) and 'f' in e]) == 1:
-                side = [e for e in pl['p'] if isinstance(e, dict) and 'f' in e][0]['f']
+            nf = len([e for e in pl['p'] if isinstance(e, dict) and 'f' in e])
+            if (pl['l'] == t_local and nf == 1) or (pl['l'] in (1, 2) and pl['l'] != t_local and nf == 0):
+                side = side_of_place(pl)
             if side is not None:
                 return ('variant', side)
         if len(defs) == 1 and defs[0][0] == 'call':
@@ -298,6 +308,10 @@ def r2(R2, cfg, F):
                         fs = [e for e in pl['p'] if isinstance(e, dict)]
                         if len(fs) >= 3 and 'f' in fs[0] and fs[1].get('n') == s['rv'].get('variant_name') and 'downcast' in fs[1]:
                             res = fs[0]['f']
+                    elif pl is not None and pl['l'] in (1, 2):
+                        fs = [e for e in pl['p'] if isinstance(e, dict)]
+                        if len(fs) >= 2 and fs[0].get('n') == s['rv'].get('variant_name') and 'downcast' in fs[0]:
+                            res = pl['l'] - 1
                 else:
                     res = None
         rows.append((cons, res))
